@@ -93,6 +93,8 @@ struct VBuf {
     /// Operation *types* are free choices and buffer indices are bounded deviations from
     /// "oldest first" (deeper histories).
     deep: bool,
+    /// Size of the receive buffers the driver is created with.
+    buf_len: usize,
 }
 
 impl TransportVisitor for VBuf {
@@ -101,7 +103,7 @@ impl TransportVisitor for VBuf {
         let net = Rc::new(Net { tx: RefCell::new(vec![]), hold_tx: RefCell::new(false) });
         let co = make_co(w, &net);
         cosim::install(&co);
-        let mut dev = match VirtIONet::<LabHal, T, NET_QS>::new(t, NET_BUF_LEN) {
+        let mut dev = match VirtIONet::<LabHal, T, NET_QS>::new(t, self.buf_len) {
             Ok(d) => d,
             Err(e) => {
                 viol("construction", format!("{:?}", e));
@@ -117,7 +119,12 @@ impl TransportVisitor for VBuf {
         let mut seq = 0u32;
         // 0, 1, a full Ethernet frame, a frame within one header length of the buffer's capacity,
         // and one that fills the buffer exactly (clamped by `deliver`).
-        let lens = [0usize, 1, 1514, NET_BUF_LEN - 20, NET_BUF_LEN];
+        let lens = if self.buf_len > 65536 {
+            // Buffers above 64 KiB: frames whose length (with and without the header) crosses 2^16.
+            [1usize, 65535 - 12, 65536 - 10, 65536, self.buf_len]
+        } else {
+            [0usize, 1, 1514, self.buf_len - 20, self.buf_len]
+        };
         for step in 0..self.depth {
             let posted = co.borrow_mut().held_count(0);
             let mut menu: Vec<(u8, usize, usize)> = vec![];
@@ -511,7 +518,18 @@ pub fn run_mode(tkind: TKind, raw: bool, depth: usize, deep: bool) {
     if raw {
         w.with_transport(VRaw { depth });
     } else {
-        w.with_transport(VBuf { depth, deep });
+        w.with_transport(VBuf { depth, deep, buf_len: NET_BUF_LEN });
     }
+    mmio::set_handler(None);
+}
+
+/// The buffer-managing driver created with 128 KiB receive buffers (nothing limits the size the
+/// caller may ask for): frames of 64 KiB and more.
+pub fn run_large(tkind: TKind, depth: usize) {
+    hal::reset();
+    let feats = [F_VERSION_1 | (1 << 5), (1 << 5) | (1 << 16)];
+    let offered = feats[choose(feats.len(), "offered features")];
+    let w = DWorld::new(Kind::NetBuf, tkind, offered, Kind::NetBuf.default_config());
+    w.with_transport(VBuf { depth, deep: true, buf_len: 128 * 1024 });
     mmio::set_handler(None);
 }
